@@ -466,6 +466,13 @@ func Exec(c Case) (res core.Result) {
 		}
 	}
 	conc := false
+	if len(c.Conc) > 0 && c.Mode == "C03" {
+		conc = true
+		if v := c.concurrentThenRestart(h, db, m); v != nil {
+			res.Viol = v
+			return
+		}
+	}
 	if len(c.Conc) > 0 && c.Mode == "C02" {
 		conc = true
 		if v := c.runConcurrent(h, m); v != nil {
@@ -486,7 +493,7 @@ func Exec(c Case) (res core.Result) {
 	case "C02":
 		res.NonTrivial = sawRepeat && (sawRestart || sawFull || conc)
 	case "C03":
-		res.NonTrivial = sawOddLen || sawNumHost || (sawWait && sawRepeat)
+		res.NonTrivial = sawOddLen || sawNumHost || (sawWait && sawRepeat) || conc
 	}
 	if sawWait && sawRepeat {
 		res.Classes = append(res.Classes, "renewal-after-time-passed")
@@ -510,6 +517,129 @@ func Exec(c Case) (res core.Result) {
 		res.Classes = append(res.Classes, "concurrent")
 	}
 	return
+}
+
+// concurrentThenRestart (C03): the goroutines' requests run concurrently, then the database is examined
+// and reopened. Whatever the interleaving, a one-at-a-time order leaves one row per client and per address,
+// every reply's binding is in the database, and a restart gives every client the address of its row.
+func (c *Case) concurrentThenRestart(h handler.Handler4, db string, m *model) *core.Violation {
+	type obs struct {
+		client int
+		ip     uint32
+	}
+	var (
+		wg    sync.WaitGroup
+		mu    sync.Mutex
+		all   []obs
+		start = make(chan struct{})
+		abort = make(chan struct{})
+		once  sync.Once
+		pviol *core.Violation
+	)
+	for g := range c.Conc {
+		wg.Add(1)
+		go func(g int) {
+			defer wg.Done()
+			defer func() {
+				if r := recover(); r != nil {
+					mu.Lock()
+					if pviol == nil {
+						pviol = core.Violate("C03/panic", "range plugin panicked in concurrent phase: %v", r)
+					}
+					mu.Unlock()
+					once.Do(func() { close(abort) })
+				}
+			}()
+			<-start
+			for j, st := range c.Conc[g] {
+				if st.Client < 0 || st.Client >= len(c.Clients) || st.Kind == "restart" || st.Kind == "wait" {
+					continue
+				}
+				r := c.ask(h, st.Client, st.Kind, st.Host, uint32(0x60000000+g*1000+j))
+				if r.viol == nil && r.served {
+					mu.Lock()
+					all = append(all, obs{st.Client, r.ip})
+					mu.Unlock()
+				}
+			}
+		}(g)
+	}
+	close(start)
+	if !core.WaitTimeout(&wg, abort, 60*time.Second) || pviol != nil {
+		if pviol != nil {
+			return pviol
+		}
+		return core.Violate("C03/wedged", "concurrent phase: handler calls did not return within 60 s")
+	}
+	cp := db + ".conc"
+	if err := copyFile(db, cp); err != nil {
+		return nil
+	}
+	defer os.Remove(cp)
+	sdb, err := sql.Open("sqlite3", "file:"+cp)
+	if err != nil {
+		return nil
+	}
+	rows, err := sdb.Query("select mac, ip from leases4")
+	if err != nil {
+		sdb.Close()
+		return core.Violate("C03/database-unreadable", "after the concurrent phase: %v", err)
+	}
+	byMAC, byIP := map[string]uint32{}, map[uint32]string{}
+	for rows.Next() {
+		var mac interface{}
+		var ip string
+		if err := rows.Scan(&mac, &ip); err != nil {
+			continue
+		}
+		hw, perr := parseStoredMAC(mac)
+		v, ok := ipu32(net.ParseIP(ip))
+		if perr != nil || !ok {
+			rows.Close()
+			sdb.Close()
+			return core.Violate("C03/stored-mac-unreadable", "after the concurrent phase: row (%v, %q) unreadable", mac, ip)
+		}
+		k := hex.EncodeToString(hw)
+		if prev, dup := byMAC[k]; dup && prev != v {
+			rows.Close()
+			sdb.Close()
+			return core.Violate("C03/binding-duplicated", "after concurrent requests the database holds two rows for hardware address %s (%s and %s)", k, u32ip(prev), u32ip(v))
+		}
+		if o, dup := byIP[v]; dup && o != k {
+			rows.Close()
+			sdb.Close()
+			return core.Violate("C03/binding-duplicated", "after concurrent requests address %s is stored for %s and %s", u32ip(v), o, k)
+		}
+		byMAC[k], byIP[v] = v, k
+	}
+	rows.Close()
+	sdb.Close()
+	for _, o := range all {
+		k := c.Clients[o.client]
+		if got, ok := byMAC[k]; !ok || got != o.ip {
+			return core.Violate("C03/binding-lost", "a concurrent request of client %s was answered with %s but the database says %v (present %v)", k, u32ip(o.ip), u32ip(got), ok)
+		}
+	}
+	h2, err := c.setup(cp)
+	if err != nil {
+		return core.Violate("C03/restart-fails", "restart after the concurrent phase fails: %v", err)
+	}
+	seen := map[int]bool{}
+	for i, o := range all {
+		if seen[o.client] {
+			continue
+		}
+		seen[o.client] = true
+		r := c.ask(h2, o.client, "discover", "", uint32(0x61000000+i))
+		if r.viol != nil {
+			return r.viol
+		}
+		if !r.served || r.ip != byMAC[c.Clients[o.client]] {
+			return core.Violate("C03/binding-changed", "after the concurrent phase and a restart client %s gets %v (served %v), its row says %s", c.Clients[o.client], u32ip(r.ip), r.served, u32ip(byMAC[c.Clients[o.client]]))
+		}
+		m.bound[o.client], m.owner[r.ip] = r.ip, o.client
+	}
+	return nil
 }
 
 func sortedClients(m map[int]uint32) []int {
